@@ -484,6 +484,31 @@ class _Transport:
         raise TimeoutError()
 
 
+# what an omitted optional parameter means (ISO 14229-1 / the documented API): no suppression, empty optional records, method 0 (no
+# compression / encryption), format byte and size computed from the values.  Written down here, NOT read from the signatures, so that
+# a changed default in client.py / service.py shows up as different bytes for the same intended request.
+OMITTED_MEANS = {"suppress_response": False, "compression_method": 0, "encryption_method": 0, "address_and_length_format_identifier": None,
+                 "control_enable_mask_record": b"", "dtc_setting_control_option_record": b"", "memory_size": None,
+                 "routine_control_option_record": b"", "security_access_data_record": b"", "transfer_request_parameter_record": b""}
+
+
+def omit_defaults(method, args):
+    """the same call with the trailing arguments left out whose given value is what leaving them out means"""
+    import inspect
+
+    from gallia.services.uds.core.client import UDSClient
+
+    names = [p for p in inspect.signature(getattr(UDSClient, method)).parameters if p not in ("self", "config")]
+    args = list(args)
+    while args and len(args) <= len(names):
+        n = names[len(args) - 1]
+        if n in OMITTED_MEANS and type(args[-1]) is type(OMITTED_MEANS[n]) and args[-1] == OMITTED_MEANS[n]:
+            args.pop()
+        else:
+            break
+    return args
+
+
 def client_call(loop, method, args):
     from gallia.services.uds.core.client import UDSClient
 
@@ -781,6 +806,16 @@ def eval_client(ctx, loop, calls, count=False):
         F = Findings()
         fs.append(F)
         st, val = client_call(loop, meth, args)
+        short = omit_defaults(meth, args)
+        if len(short) < len(args):
+            st2, val2 = client_call(loop, meth, short)
+            if count:
+                ctx.kind("client:optional-arguments-omitted")
+            if (st2, val2) != (st, val):
+                F.add(f"client-default:{meth}:{len(args) - len(short)}-omitted", f"UDSClient.{meth}({short!r:.80}) - optional arguments left out - hands {val2[:60]} to the "
+                      f"transport, with the arguments spelled out ({args!r:.80}) it hands {val[:60]}",
+                      {"direction": "client", "method": meth, "args": jparams(short), "varied": "defaults", "_size": size_of(short)},
+                      impl={"status": st2, "value": val2}, model={"status": st, "value": val}, site=f"UDSClient.{meth} (default arguments)")
         if count:
             ctx.ev()
             ctx.kind("client:" + meth)
